@@ -34,6 +34,9 @@ var c19Programs = []string{
 	`{|| defer 1 / 0; a}()`,
 	`1.try.{|q| raise AssertionErr.new("t")}.abandon`,
 	`"#{a}"`,
+	`it := [a]._iter; it.next; it.next`,
+	`it := (1:2)._iter; it.next; it.next.try.err`,
+	`[a, 2].withI.A; it := "s"._iter; it.next; it.next`,
 }
 
 // run evaluates src in a FRESH scope of the shared world and returns (Inspect, stack trace).
@@ -71,7 +74,7 @@ func H_C19_frame() {
 	hi := rt.Param(0)
 	bi := rt.Choice(len(c19Programs)) // the later program: a solver choice among the family
 	if rt.Param(1) >= 0 {
-		rt.Assume(bi == rt.Param(1) || bi == hi || bi == 3 || bi == 4)
+		rt.Assume(bi == rt.Param(1) || bi == hi || bi == 3 || bi == 4 || bi == 14 || bi == 16)
 	}
 	a := int64(7) // results are compared by their printed form, so the input is concrete
 	world := c19WorldSnap()
